@@ -7,7 +7,7 @@ OUT=seeded/MATRIX_${TIER}_$(echo "$GLOB" | tr -c 'A-Za-z0-9\n' '_').txt
 for d in seeded/$GLOB/; do
   id=$(basename $d); prop=${id%-*}
   patch=$d/patch.diff; [ -f $d/patch_current.diff ] && patch=$d/patch_current.diff
-  res=$(MUT_SCRATCH=1 tools/mutcheck.sh $patch $prop $TIER 2>&1 | tail -1)
+  res=$(VERIF_STOP_AT_FIRST=1 MUT_SCRATCH=1 tools/mutcheck.sh $patch $prop $TIER 2>&1 | tail -1)
   labels=$(python3 -c "
 import json
 try:
